@@ -462,6 +462,10 @@ func init() {
 			if !ok {
 				fail("spec: chanlen(chan)")
 			}
+			if os.Getenv("GOVC_DEBUG") == "chan" {
+				_, has := e.st.ghost["chanlen:"+e.st.norm(c.H).String()]
+				fmt.Fprintf(os.Stderr, "spec chanlen key chanlen:%s has=%v\n", e.st.norm(c.H), has)
+			}
 			return Scalar{e.st.chanLen(e.st.norm(c.H))}
 		},
 		"ufval_ptr": func(e *Env, args []ast.Expr) Value {
